@@ -235,6 +235,10 @@ def run(cx):
     from props.shared import resend_ref_in_own_frame
     resend_ref_in_own_frame(cx, "C15.j")
     group_width(cx, "C15.k")
+    # a genuine acknowledgement of one frame must mark exactly the fragments that frame carried: the flag word/bit
+    # written by acknowledge_fragment is the one fragment_acknowledged reads
+    from props.C04 import inst_fragment_flags
+    inst_fragment_flags(cx, "C15.l")
 
 
 def group_width(cx, iid):
@@ -255,7 +259,7 @@ def group_width(cx, iid):
         if w == "sub(32,u32::leading_zeros(arg2.bitfield))":
             ok = True
             inst.site(b, None, "width = 32 - leading_zeros(bitfield)")
-        mm = re.fullmatch(r"Option::map_or\(Rev::find\((var\d+),closure:(\S+?)\{arg2\.bitfield\}\),0,closure:(\S+?)\{\}\)", w)
+        mm = re.fullmatch(r"Option::map_or\(Rev::find\((var\d+),closure:(\S+?)\{arg2(?:\.bitfield)?\}\),0,closure:(\S+?)\{\}\)", w)
         if mm:
             # (0..32).rev().find(|&i| bitfield & (1 << i) != 0).map_or(0, |i| i + 1)
             try:
@@ -263,7 +267,7 @@ def group_width(cx, iid):
                 c0 = show(R.body(mm.group(2)).local_expr(0))
                 c1 = show(R.body(mm.group(3)).local_expr(0))
                 inst.site(b, None, "width = rev(0..32).find(%s).map_or(0, %s) over %s" % (c0, c1, src))
-                ok = (c0 in ("ne(0,bitand(arg1.0,shl(1,arg2)))", "ne(0,bitand(shl(1,arg2),arg1.0))") and c1 in ("add(1,arg2)", "add(arg2,1)")
+                ok = (re.sub(r"arg1\.0\.bitfield", "arg1.0", c0) in ("ne(0,bitand(arg1.0,shl(1,arg2)))", "ne(0,bitand(shl(1,arg2),arg1.0))") and c1 in ("add(1,arg2)", "add(arg2,1)")
                       and all(re.fullmatch(r"(I::into_iter\()?Iterator::rev\(Range\{0,32\}\)\)?", x) for x in src) and bool(src))
             except Exception:
                 ok = False
@@ -292,15 +296,21 @@ def log_lookup_siblings(cx, iid):
     with the same expression"""
     R = cx.R
     with cx.instance(iid, "T4 SIBLING", "FrameLog::get_frame and get_frame_mut compute the same modular index", floor=2) as inst:
+        from props.C03 import _strip_casts, _index_call_auto
         idx = {}
-        for fn, getter in (("FrameLog::get_frame", "VecDeque::get"), ("FrameLog::get_frame_mut", "VecDeque::get_mut")):
+        for fn in ("FrameLog::get_frame", "FrameLog::get_frame_mut"):
             b = R.body(fn)
-            for l, t in b.calls(getter):
+            for l, t in b.calls("re:VecDeque::(get|get_mut|index|index_mut)$"):
+                if show(b.operand_expr(t["args"][0])) != "arg1.frames":
+                    continue
                 e = show(b.call_expr(t))
                 inst.site(b, l, e[:100])
-                idx[fn] = re.sub(r"^VecDeque::get(_mut)?", "", e)
-        if len(idx) != 2 or len(set(idx.values())) != 1:
-            inst.violation("half_connection::frame_queue::FrameLog", "get_frame / get_frame_mut", "the checking and the applying lookup disagree: %s" % idx)
+                ix = show(b.operand_expr(t["args"][1]))
+                idx.setdefault(fn, set()).add(_strip_casts(ix))
+                if R.short(t["fn"]).split("::")[-1].startswith("index") and not _index_call_auto(cx, b, l, "arg1.frames", ix):
+                    inst.violation(b.path, "unchecked log index", "%s indexes the log with `%s` without `index < len` established on every path: an acknowledgement naming a frame that is not in the log must be ignored, not panic" % (fn, ix), at=b.span_at(l))
+        if len(idx) != 2 or idx["FrameLog::get_frame"] != idx["FrameLog::get_frame_mut"] or any(len(v) != 1 for v in idx.values()):
+            inst.violation("half_connection::frame_queue::FrameLog", "get_frame / get_frame_mut", "the checking and the applying lookup disagree: %s" % {k: sorted(v) for k, v in idx.items()})
         dr = R.body("FrameLog::drain")
         dcalls = [(l, show(dr.call_expr(t))) for l, t in dr.calls("VecDeque::drain")]
         bws = [(l, show(dr.rvalue_expr(n["rv"]))) for l, n, ps in dr.field_writes(r"arg1\.base_id") if n["k"] == "assign"]
@@ -309,9 +319,10 @@ def log_lookup_siblings(cx, iid):
             inst.violation(dr.path, "drain", "FrameLog::drain must remove exactly the entries below the new base (modular distance) and then move base_id to it: %s / %s" % ([c for _, c in dcalls], [v for _, v in bws]))
         elif dr.reach_from_entry_avoiding(bws[0][0], [dcalls[0][0]]) is not None or dr.reach_exit_avoiding(dcalls[0][0], [bws[0][0]]) is not None:
             inst.violation(dr.path, "drain order", "the entries are not removed before base_id moves on every path")
-        if len(idx) == 2 and len(set(idx.values())) == 1 and not re.fullmatch(r"\(arg1\.frames,cast<usize>\(u32::wrapping_sub\(arg2,arg1\.base_id\)\)\)", list(idx.values())[0]):
-            inst.violation("half_connection::frame_queue::FrameLog", "log index", "the frame log is indexed by `%s`, expected (id wrapping_sub base) as usize" % list(idx.values())[0])
-
+        if len(idx) == 2 and all(len(v) == 1 for v in idx.values()):
+            got = sorted(idx["FrameLog::get_frame"])[0]
+            if got != "u32::wrapping_sub(arg2,arg1.base_id)":
+                inst.violation("half_connection::frame_queue::FrameLog", "log index", "the frame log is indexed by `%s`, expected (id wrapping_sub base) as usize" % got)
 
 SELFTEST = [
     {"name": "skip the ack.nonce != true_nonce return",
